@@ -13,9 +13,10 @@ import (
 )
 
 // FixtureNames are the committed private keys (PKCS#8 PEM) under /verif/fixtures used by C19; the
-// last three are deliberately unsupported by heimdall.
+// ones from rsa1024-a on are deliberately unsupported by heimdall (rsa2560-a: a size between the usual ones).
 var FixtureNames = []string{ //nolint:gochecknoglobals
 	"rsa2048-a", "p256-a", "p384-a", "p521-a", "rsa1024-a", "p224-a", "ed25519-a",
+	"rsa2560-a",
 }
 
 // EnsureFixtures generates missing key fixtures.
@@ -40,6 +41,8 @@ func EnsureFixtures(dir string) error {
 			key, err = rsa.GenerateKey(rand.Reader, 2048)
 		case "rsa1024-a":
 			key, err = rsa.GenerateKey(rand.Reader, 1024) //nolint:gosec
+		case "rsa2560-a":
+			key, err = rsa.GenerateKey(rand.Reader, 2560)
 		case "p256-a":
 			key, err = ecdsa.GenerateKey(elliptic.P256(), rand.Reader)
 		case "p384-a":
